@@ -242,14 +242,14 @@ def _(h):
 
 # ----------------------------------------------------------------------------- conditioning next to the half-turn band (F-repr)
 
-for _ax in ('z', 'x'):
-    @claim(f'log-conditioning-near-pi:{_ax}', split=True, values=True)
-    def _(h, ax=_ax):
+for _ax, _where in (('z', 'pi'), ('x', 'pi'), ('z', 'identity'), ('x', 'identity')):
+    @claim(f'log-conditioning-near-{_where}:{_ax}', split=True, values=True)
+    def _(h, ax=_ax, where=_where):
         """F-repr: a rotation matrix as a double array holds it -- diagonal entries off by at most 4 eps -- with an angle
         between pi - 1e-5 and pi - 2e-7 (just outside trlog's half-turn band).  The logarithm must still have magnitude
         <= pi and reproduce R to the property's tolerance.  (The general branch divides by sin(acos((tr-1)/2)), which
         amplifies a 1e-16 error in the trace by 1/delta^2.)"""
-        th = h.angle('th', math.pi - 1e-5, math.pi - 2e-7)
+        th = h.angle('th', (math.pi - 1e-5) if where == 'pi' else 1e-9, (math.pi - 2e-7) if where == 'pi' else 1e-7)
         R = h.arr(rotz_ref(h, th) if ax == 'z' else rotx_ref(h, th))
         e1, e2 = h.real('e1', -2.0 ** -50, 2.0 ** -50), h.real('e2', -2.0 ** -50, 2.0 ** -50)
         i, j = (0, 1) if ax == 'z' else (1, 2)
